@@ -287,6 +287,12 @@ def derive_oracles(lines, impl):
 def run(ctx, cases_override=None):
     lines = cases_override or cases(ctx["tier"], ctx["seed"])
     fails = []
+    zlines = [l for l in lines if l.split(" ", 2)[1] == "spai0_cplx"]
+    lines = [l for l in lines if l.split(" ", 2)[1] != "spai0_cplx"]
+    # complex value type: SPAI-0 against the row-wise least-squares minimiser conj(a_ii)/sum|a_ij|^2
+    # (std::complex<double>; python reference, tolerance 1e-12; no Coq instance for complex numbers)
+    fails += complex_spai0(ctx, zlines if cases_override else None)
+    if not lines: return fails
     f, impl, model = diff_run(ctx, "relax", lines, env={"OMP_NUM_THREADS": "1"})
     skipped = 0
     for x in f:
@@ -313,12 +319,59 @@ def run(ctx, cases_override=None):
     return fails
 
 
+def complex_cases(tier, seed):
+    r = random.Random(seed * 1000 + 66); out = []
+    for k in range(6 if tier == "quick" else 40):
+        n = r.choice([1, 2, 3, 4])
+        toks = [str(n)]
+        for i in range(n):
+            cols = sorted(set([i] + [j for j in range(n) if r.random() < 0.5]))
+            toks.append(str(len(cols)))
+            for c in cols:
+                re, im = r.randint(-3, 3), r.randint(-3, 3)
+                if c == i and k % 3 == 0: im = 0                 # some real diagonals
+                if c == i and re == 0 and im == 0: re = 2
+                toks += [str(c), str(re), str(im)]
+        out.append("z%d spai0_cplx %s" % (k, " ".join(toks)))
+    return out
+
+def complex_spai0(ctx, lines=None):
+    lines = lines if lines is not None else complex_cases(ctx["tier"], ctx["seed"])
+    if not lines: return []
+    impl = ctx["run_driver"](ctx["cpp"]["relax"], lines, env_extra={"OMP_NUM_THREADS": "1"})
+    fails = []
+    for l in lines:
+        cid = l.split(" ", 1)[0]; t = Toks(l); t.s(); t.s(); n = t.i()
+        rows = [[(t.i(), complex(int(t.s()), int(t.s()))) for _ in range(t.i())] for _ in range(n)]
+        ctx["stats"]["oracle_checks"] += 1; ctx["stats"]["evaluations"] += 1
+        out = impl.get(cid) or ""
+        try:
+            v = [float(x) for x in parse_out_vec(out)]; M = [complex(v[2 * i], v[2 * i + 1]) for i in range(n)]
+        except Exception:
+            fails.append(dict(kind="counterexample", case=l, impl=out, model=None, op="spai0_cplx", size=len(l),
+                              theorem="spai0 (complex): driver output", oracle=dict(op="py_ls_minimiser", result="BAD OUTPUT"))); continue
+        for i in range(n):
+            den = sum(abs(a) ** 2 for _, a in rows[i]); aii = sum(a for c, a in rows[i] if c == i)
+            ls = aii.conjugate() / den; coded = aii / den
+            if abs(M[i] - ls) > 1e-12:
+                ctx["stats"]["oracle_fail"] += 1
+                fails.append(dict(kind="counterexample", case=l, impl=out, model=None, op="spai0_cplx", size=len(l),
+                    theorem="spai0 (complex values): M_i is the least-squares minimiser conj(a_ii)/sum_j|a_ij|^2 of ||e_i - m a_i||",
+                    oracle=dict(op="py_ls_minimiser", result="FAIL row %d M=%r minimiser=%r" % (i, M[i], ls),
+                                matches_formula_without_conj=abs(M[i] - coded) <= 1e-12, diag_nonreal=(aii.imag != 0))))
+                break
+    return fails
+
+
 def classify(fail):
     """signature of a failure; the known finding is specific to: ILU(k) exactness oracle fails at a
     position that iluk.hpp dropped at creation and re-admitted later (computed from the case)."""
     try:
         case = fail.get("case") or ""
         sp = case.split(" ", 2)
+        if len(sp) >= 3 and sp[1] == "spai0_cplx" and fail.get("oracle"):
+            o = fail["oracle"]
+            return {"site": "spai0", "missing_conj": bool(o.get("matches_formula_without_conj") and o.get("diag_nonreal"))}
         if len(sp) >= 3 and sp[1] == "ilut" and fail.get("oracle") and fail["oracle"].get("op") == "o_exact_solve":
             d = parse_case(case); p = F(d["params"][0]); tau = F(d["params"][1]); rows = d["A"][2]
             lenU = [sum(1 for c, _ in rw if c > i) for i, rw in enumerate(rows)]
